@@ -221,6 +221,48 @@ let run_direct u line =
        String.concat " " (List.map fmt_dres (upto rs)))
   | _ -> failwith "bad direct case"
 
+(* ---------- stream: compl (C15) ---------- *)
+let parse_layout (tok : string) : dentry list =
+  if tok = "_" then [] else begin
+    let toks = String.split_on_char ',' tok in
+    let roots = ref [] in
+    let add_root name isdir =
+      if not (List.exists (fun (n, _, _) -> n = name) !roots) then roots := !roots @ [(name, isdir, ref [])] in
+    List.iter (fun t ->
+        let kind = t.[0] and rest = String.sub t 1 (String.length t - 1) in
+        match kind with
+        | 'F' -> add_root (parse_str rest) false
+        | 'D' -> add_root (parse_str rest) true
+        | 'G' | 'H' ->
+          (match String.split_on_char '|' rest with
+           | [p; n] ->
+             let p = parse_str p in
+             add_root p true;
+             let (_, _, ch) = List.find (fun (n, _, _) -> n = p) !roots in
+             let nm = parse_str n in
+             if not (List.exists (fun (x, _) -> x = nm) !ch) then ch := !ch @ [(nm, kind = 'H')]
+           | _ -> failwith "layout")
+        | _ -> failwith "layout kind") toks;
+    List.map (fun (n, d, ch) -> { d_name = n; d_is_dir = d; d_children = !ch }) !roots
+  end
+
+let utf8_compare (a : n list) (b : n list) = compare (List.map int_of_n a) (List.map int_of_n b)
+
+let run_compl _u line =
+  match words line with
+  | "path" :: layout :: lines ->
+    let root = parse_layout layout in
+    String.concat " ; " (List.map (fun l ->
+        let (start, cands) = complete_path root (parse_str l) in
+        let cands = List.sort (fun (d1, _) (d2, _) -> utf8_compare d1 d2) cands in
+        Printf.sprintf "%d %s" (int_of_nat start)
+          (if cands = [] then "_" else String.concat "," (List.map (fun (d, r) -> fmt_str d ^ "=" ^ fmt_str r) cands))) lines)
+  | "lcp" :: cands ->
+    (match longest_common_prefix (List.map parse_str cands) with
+     | None -> "none" | Some s -> "some:" ^ fmt_str s)
+  | ["unesc"; s] -> fmt_str (unescape (n_of_int 92) (parse_str s))
+  | _ -> failwith "bad compl case"
+
 (* ---------- main ---------- *)
 let () =
   let stream = Sys.argv.(1) in
@@ -233,6 +275,7 @@ let () =
     | "fhist" -> run_fhist u
     | "seg" -> run_seg u
     | "direct" -> run_direct u
+    | "compl" -> run_compl u
     | s -> failwith ("unknown stream " ^ s) in
   (try
      while true do
